@@ -401,7 +401,7 @@ Qed.
    stereotype does not catch), each once, in order, at the time of the event *)
 Lemma restart_fold_calls k c now m : forall l s e,
   exists n, map (fun i => match i with ICall m' (CbStart st) t _ => (m', st, t) | _ => (0, 0, 0) end)
-                (start_calls (x_log (fst (fold_left (fun (acc : xs * bool) stage => if snd acc then acc else at_sim_start k c now m stage (fst acc)) l (s, e))))) =
+                (start_calls (x_log (fst (fold_left (fun (acc : xs * bool) stage => if snd acc then acc else restart_stage k c now m stage (fst acc)) l (s, e))))) =
             map (fun i => match i with ICall m' (CbStart st) t _ => (m', st, t) | _ => (0, 0, 0) end) (start_calls (x_log s)) ++
             map (fun st => (m, st, now)) (firstn n l) /\
             (e = false -> l <> [] -> (0 < n)%nat).
@@ -410,7 +410,7 @@ Proof.
   - exists 0%nat. cbn. rewrite app_nil_r. split; [reflexivity|]. intros _ H. contradiction.
   - destruct e.
     + destruct (IH s true) as (n & Hn & _). exists 0%nat. cbn [firstn map]. rewrite app_nil_r.
-      assert (G : forall l0, fst (fold_left (fun (acc : xs * bool) stage => if snd acc then acc else at_sim_start k c now m stage (fst acc)) l0 (s, true)) = s).
+      assert (G : forall l0, fst (fold_left (fun (acc : xs * bool) stage => if snd acc then acc else restart_stage k c now m stage (fst acc)) l0 (s, true)) = s).
       { induction l0 as [|x l0 IH0]; cbn [fold_left fst snd]; [reflexivity|exact IH0]. }
       rewrite G. split; [reflexivity|discriminate].
     + destruct (at_sim_start_calls k c now m st s) as (a & Ha).
@@ -448,7 +448,7 @@ Proof.
 Qed.
 
 Lemma restart_fold_full k c now m : forall l s,
-  let r := fold_left (fun (acc : xs * bool) stage => if snd acc then acc else at_sim_start k c now m stage (fst acc)) l (s, false) in
+  let r := fold_left (fun (acc : xs * bool) stage => if snd acc then acc else restart_stage k c now m stage (fst acc)) l (s, false) in
   ~ In (IPanic m 0) (x_log (fst r)) ->
   map (fun i => match i with ICall m' (CbStart st) t _ => (m', st, t) | _ => (0, 0, 0) end) (start_calls (x_log (fst r))) =
   map (fun i => match i with ICall m' (CbStart st) t _ => (m', st, t) | _ => (0, 0, 0) end) (start_calls (x_log s)) ++
